@@ -378,7 +378,9 @@ class Chains(Family):
 
 
 NAMES_VARS = {'X': 7.0, 'x1': 11.0, 'x_1': 13.0, "x'": 17.0, 'a_{1}^{2}': 19.0, 'T_{ij}': 23.0, 'sin': 29.0,
-              "x''": 31.0, 'a_{1}': 37.0, 'a^{2}': 41.0, 'a_{-1}': 43.0, 'xy_z_2': 47.0, 'a': 53.0}
+              "x''": 31.0, 'a_{1}': 37.0, 'a^{2}': 41.0, 'a_{-1}': 43.0, 'xy_z_2': 47.0, 'a': 53.0,
+              # signed UPPER indices (documented: ^{(-)<alphanumeric>}), alone, after a lower index, before a prime
+              'T^{-2}': 59.0, 'a_{1}^{-b}': 61.0, "R^{-1}'": 67.0}
 
 
 def F_upper(t):
@@ -401,7 +403,8 @@ E4_ATOMS = ['x', 'X', 'x1', 'x_1', "x'", "x''", 'a_{1}^{2}', 'T_{ij}', 'sin', 'a
             'a^{2}^{3}', 'a_{1}^{2}^{3}', 'T_{i j}', 'a_{i+1}', '2x', '2X', 'x 1', 'x(2)', 'X (2)', 'sin 2', 'f f(2)',
             # (appended, indices above are referenced by stored replays) names that differ from a name in scope ONLY by
             # case and whose other-case spelling is NOT in scope: a case-insensitive fallback would resolve them
-            'A', 't_{ij}', "X'", 'XY_z_2', 'SIN', "F'(2)", 'A_{1}^{2}']
+            'A', 't_{ij}', "X'", 'XY_z_2', 'SIN', "F'(2)", 'A_{1}^{2}',
+            'T^{-2}', 'a_{1}^{-b}', "R^{-1}'", 'T^{-}', 'T^{--2}']
 E4_OPS = ['+', '*', '^', '||', '-', '/']
 
 
